@@ -44,6 +44,9 @@ def table_case(counts, kind='ordinal', nan_counts=None, dev_counts=None, dev_nan
     return case
 
 
+DEGENERATE = ['q_const', 'q_allnan', 'o_many', 'c_id', 'q_unique', 'c_const', 'q_two', 'q_dates', 'q_zero_nan']
+
+
 def random_case(rng, n=None, with_dev=None, target=None, allow_nan=True, degenerate=False, variants=False):
     n = n or rng.choice([30, 40, 60, 90])
     target = target or rng.choice(['binary', 'binary', 'continuous'])
@@ -57,7 +60,7 @@ def random_case(rng, n=None, with_dev=None, target=None, allow_nan=True, degener
     arche = rng.sample(['q_disc', 'q_cont', 'c_cat', 'c_num', 'o_ord', 'q_spike'], rng.choice([2, 3, 3, 4]))
     if variants and rng.random() < 0.5 and 'c_cat' in arche: arche = arche + ['c_cat2']          # a second categorical feature sharing its modality names with the first
     if variants and rng.random() < 0.3: arche = arche + ['c_int']                                                      # a categorical feature stored in an int64 column
-    if degenerate: arche = arche[:2] + [rng.choice(['q_const', 'q_allnan', 'o_many', 'c_id', 'q_unique', 'c_const', 'q_two', 'q_dates', 'q_zero_nan', 'q_dates', 'q_zero_nan'])]
+    if degenerate: arche = arche[:2] + [degenerate if isinstance(degenerate, str) else rng.choice(DEGENERATE)]
     for a in arche:
         pn = rng.choice([0, 0, 0.08, 0.2])
         if a == 'q_disc':
